@@ -14,7 +14,7 @@ SPEC = {
     "must_reach": ["PyMatterSim.utils.spherical_harmonics:SphHarm%d" % l for l in range(1, 11)] +
                   ["PyMatterSim.utils.spherical_harmonics:SphHarm_above", "PyMatterSim.utils.spherical_harmonics:sph_harm_l"],
     "floors": {"table_vs_scipy": 2000, "table_vs_own_grid": 10, "band_limit": 10, "oracle_vs_mpmath": 100,
-               "oracle_vs_scipy": 1000, "identities": 1000, "dispatcher": 100, "delegated": 200, "history": 60},
+               "oracle_vs_scipy": 1000, "identities": 1000, "dispatcher": 100, "delegated": 200, "history": 60, "nearby_angles": 500},
     "insitu": ("sph",),
     "rule": ("l=1..10: every table evaluated on the full-circle 64x64 grid (structure + identity with the own recurrence), "
              "on random angles in [0,pi]x(-pi,pi], the poles and phi in {0,+-pi}; l=11..20 delegated branch on random angles "
@@ -183,6 +183,39 @@ def run(ctx):
                     good = v2 is not None and np.shape(v2) == (2 * l + 1,) and np.abs(np.asarray(v2) - sph_harm_y(l, ms, a, b)).max() <= 1e-10
                     ctx.check("history", bool(good), f"{name}/history", lambda: f"l={l}: second call with the same angles, after the caller "
                               "modified the first result in place, no longer returns Y_lm", {"l": l, "theta": a, "phi": b})
+    # ---- history: consecutive calls for directions that differ by far less than any bond-angle resolution (the same crystal direction up to
+    #      coordinate round-off, a slowly rotating bond): every call is answered for ITS angles (Y_lm changes by ~l*delta >> 1e-11)
+    rngn = ctx.rng(55)
+    for l in list(range(1, 11)) + [11, 12, 15, 20]:
+        ms = np.arange(-l, l + 1)
+        for _rep in range(6):
+            a, b = float(np.arccos(rngn.uniform(-0.95, 0.95))), float(rngn.uniform(-3.0, 3.0))
+            seq = [(a, b)]
+            for dlt in (3e-7, -4e-8, 1e-9, 2.5e-6):
+                seq.append((seq[-1][0] + dlt * float(rngn.uniform(0.5, 1.0)), seq[-1][1] - dlt * float(rngn.uniform(0.5, 1.0))))
+            names = [("sph_harm_l", lambda x, y: SH.sph_harm_l(l, x, y))]
+            names.append((f"SphHarm{l}", getattr(SH, f"SphHarm{l}")) if l <= 10 else ("SphHarm_above", lambda x, y: SH.SphHarm_above(l, x, y)))
+            for name, f in names:
+                for x, y in seq:
+                    ok, v = ctx.call(name + "/nearby_angles", f, x, y, data={"l": l, "theta": x, "phi": y})
+                    if ok:
+                        good = v is not None and np.shape(v) == (2 * l + 1,) and np.abs(np.asarray(v) - sph_harm_y(l, ms, x, y)).max() <= (eps_tab if l <= 10 else 1e-10)
+                        ctx.check("nearby_angles", bool(good), f"{name}/nearby_angles",
+                                  lambda: f"l={l}: after a call for almost the same direction, ({x!r}, {y!r}) is not answered with its own Y_lm "
+                                          f"(max dev {np.abs(np.asarray(v) - sph_harm_y(l, ms, x, y)).max():.3g})", {"l": l, "sequence": seq})
+    # ---- delegated branch: whole-number angles handed over as integers (Python int, numpy integer), negative azimuth included
+    for l in (11, 12, 16, 20):
+        ms = np.arange(-l, l + 1)
+        for ti in (0, 1, 2, 3):
+            for pi_ in (-3, -2, -1, 0, 1, 3):
+                for conv in (int, np.int64, np.int32):
+                    x, y = conv(ti), conv(pi_)
+                    for name, f in (("SphHarm_above", lambda: SH.SphHarm_above(l, x, y)), ("sph_harm_l", lambda: SH.sph_harm_l(l, x, y))):
+                        ok, v = ctx.call(name + "/integer_angles", f, data={"l": l, "theta": ti, "phi": pi_, "type": conv.__name__})
+                        if ok:
+                            good = v is not None and np.shape(v) == (2 * l + 1,) and np.abs(np.asarray(v) - sph_harm_y(l, ms, float(ti), float(pi_))).max() <= 1e-10
+                            ctx.check("scalar_representations", bool(good), f"{name}/integer_angles",
+                                      lambda: f"l={l}: angles ({ti}, {pi_}) given as {conv.__name__} do not give Y_lm", {"l": l, "theta": ti, "phi": pi_})
     # ---- delegated branch
     rng = ctx.rng(99)
     for l in range(11, 21):
